@@ -62,6 +62,7 @@ fn reference_step(specs: &[LayerSpec], params: &[Vec<(Vec<usize>, Vec<f64>)>], x
 }
 
 struct RunInfo {
+    why: Option<&'static str>,
     truncated_at: Option<usize>,
     nonzero_steps: usize,
     zero_sum_grads: usize,
@@ -83,7 +84,7 @@ impl Case14 {
         let refs: Vec<&mut dyn Layer> = layers.iter_mut().map(|b| &mut **b as &mut dyn Layer).collect();
         let mut model = Model::new(refs, &gd, &cf);
         let nl = self.specs.len();
-        let mut info = RunInfo { truncated_at: None, nonzero_steps: 0, zero_sum_grads: 0, batch_sizes: vec![] };
+        let mut info = RunInfo { why: None, truncated_at: None, nonzero_steps: 0, zero_sum_grads: 0, batch_sizes: vec![] };
         // index (in units of whole-model snapshots) of the snapshot taken by each iteration's update
         let mut snap_of_iter: Vec<usize> = vec![];
         // one entry per iteration: (x, target, loss)
@@ -157,7 +158,21 @@ impl Case14 {
             let ndirs: usize = params.iter().map(|l| l.iter().map(|p| p.1.len()).sum::<usize>()).sum();
             let exact_stack = self.int_data && self.specs.iter().all(|s| matches!(s, LayerSpec::Dense { act: Act::None | Act::Relu, .. } | LayerSpec::Conv { act: Act::None | Act::Relu, .. } | LayerSpec::Flatten));
             let exact_now = exact_stack && params.iter().all(|l| l.iter().all(|p| p.1.iter().all(|v| refmodel::model::is_exact_value(*v)))) && x.vals.iter().all(|v| refmodel::model::is_exact_value(v.v));
-            let ill = (ops::kink_count() > kinks && !exact_now) || !lref.v.is_finite() || !lref.vm.is_finite() || lref.vm > 1e8 || (0..ndirs).any(|i| !lref.dirm(i).is_finite() || lref.dirm(i) > 1e10) || params.iter().any(|l| l.iter().any(|p| p.1.iter().any(|v| v.abs() > 1e4)));
+            let why = if ops::kink_count() > kinks && !exact_now {
+                Some("a relu input is zero only up to rounding")
+            } else if !lref.v.is_finite() || !lref.vm.is_finite() {
+                Some("non-finite reference loss")
+            } else if lref.vm > 1e8 {
+                Some("loss magnitude above 1e8")
+            } else if (0..ndirs).any(|i| !lref.dirm(i).is_finite() || lref.dirm(i) > 1e10) {
+                Some("gradient magnitude above 1e10")
+            } else if params.iter().any(|l| l.iter().any(|p| p.1.iter().any(|v| v.abs() > 1e4))) {
+                Some("parameters above 1e4")
+            } else {
+                None
+            };
+            let ill = why.is_some();
+            info.why = why;
             if ill {
                 info.truncated_at = Some(it);
                 break;
@@ -247,7 +262,7 @@ impl CaseKind for Case14 {
                 if let Some(t) = info.truncated_at {
                     classes.push("truncated:left-the-well-conditioned-domain".into());
                     if t == 0 {
-                        return Outcome::discard("the first iteration is already ill-conditioned");
+                        return Outcome::discard(&format!("the first iteration is already outside the well-conditioned domain: {}", info.why.unwrap_or("?")));
                     }
                 }
                 if info.zero_sum_grads > 0 {
